@@ -7,7 +7,7 @@ from . import values as V
 FUNCS = ['pyg_base._dict:tree_items', 'pyg_base._dict:tree_keys', 'pyg_base._dict:tree_values', 'pyg_base._dict:items_to_tree', 'pyg_base._dict:_tree_setitem',
          'pyg_base._dict:tree_update', 'pyg_base._dict:tree_getitem', 'pyg_base._dict:tree_get', 'pyg_base._dict:tree_setitem', 'pyg_base._dict:Dict.__add__',
          'pyg_base._tree:tree_to_table', 'pyg_base._table_to_tree:table_to_tree', 'pyg_base._eq:in_']
-BOUNDS = dict(trees = 'every tree of depth <= 3 (quick 2) with 1..2 children per branch over keys a, b, c, branches of type dict / Dict; the shape is chosen by symbolic selectors',
+BOUNDS = dict(trees = 'every tree of depth <= 2 with 1..2 children per branch over keys a, b, c (and a key holding the path separator, v.1), branches of type dict / Dict; the shape is chosen by symbolic selectors; thorough adds depth 3 (round trip: leaves None / int; update: one side of depth 3 against the other of depth 2, root key sets not both of two keys)',
               leaves = 'None | any int | string 2-pool | a 2-element list of ints', pairs = 'all pairs (t, u) of such trees incl. overlapping branches and leaf-vs-branch conflicts; ignore lists [None], [None, 0]',
               patterns = '1..4 wildcards, literal segments in between, tables of <= 2 rows with unique paths')
 OUTSIDE = ['trees deeper than 3 or wider than 2', 'empty branches (excluded by the statement)', 'non-string keys']
@@ -25,7 +25,7 @@ def leaf(c, name, kinds = None):
 
 def tree(c, name, depth, cls = dict, root = True, kinds = None):
     """a branch with 1..2 children; each child a leaf or (depth permitting) a sub-branch"""
-    ks = c.pick(name + '.keys', [('a',), ('b',), ('a', 'b'), ('b', 'c')] if root else [('a',), ('a', 'b')])
+    ks = c.pick(name + '.keys', [('a',), ('b',), ('a', 'b'), ('b', 'c'), ('v.1',), ('a', 'v.1')] if root else [('a',), ('a', 'b')])      # 'v.1': a key holding the path separator
     out = cls()
     for k in ks:
         sub = depth > 1 and c.choice('%s.%s.isbranch' % (name, k), 2) == 1
@@ -78,25 +78,26 @@ def paths(t, pre = ()):
         out += paths(v, pre + (k,)) if isinstance(v, dict) else [pre + (k, v)]
     return out
 
-def h_roundtrip(depth, cls):
+def h_roundtrip(depth, cls, kinds = None):
     def h(c):
         import pyg_base as P
-        t = tree(c, 't', depth, cls); snap = snapshot(t)
+        t = tree(c, 't', depth, cls, kinds = kinds); snap = snapshot(t)
         items = P.tree_items(t)
         c.check('tree_items-lists-every-path-with-its-leaf', len(items) == len(paths(t)) and all(a[:-1] == b[:-1] and a[-1] is b[-1] for a, b in zip(items, paths(t))))
         c.check('items_to_tree-inverts-tree_items', deq(P.items_to_tree(items), t))
         c.check('tree_keys-are-the-paths-in-order', P.tree_keys(t) == [i[:-1] for i in items])
         c.check('tree_values-are-the-leaves-in-order', len(P.tree_values(t)) == len(items) and all(a is b[-1] for a, b in zip(P.tree_values(t), items)))
         for it in items:
-            c.check('tree_getitem-returns-the-leaf', P.tree_getitem(t, list(it[:-1])) is it[-1] and P.tree_getitem(t, '.'.join(it[:-1])) is it[-1] and P.tree_get(t, '.'.join(it[:-1])) is it[-1])
+            dotted = any('.' in k for k in it[:-1])                    # a dotted string path is ambiguous when a key holds the separator: only the list form is claimed then
+            c.check('tree_getitem-returns-the-leaf', P.tree_getitem(t, list(it[:-1])) is it[-1] and (dotted or (P.tree_getitem(t, '.'.join(it[:-1])) is it[-1] and P.tree_get(t, '.'.join(it[:-1])) is it[-1])))
         c.check('tree-unchanged', same_snapshot(t, snap))
     return h
 
-def h_update(depth, cls, ignore):
+def h_update(depth, cls, ignore, depth_u = None):
     def h(c):
         import pyg_base as P
         # the merge only looks at t's structure, and at u's leaves only to see whether they are ignored: t's leaves are ints, u's None / int / list
-        t = tree(c, 't', depth, cls, kinds = ['int']); u = tree(c, 'u', depth, dict, kinds = ['none', 'int'] if ignore else ['none', 'int', 'list'])
+        t = tree(c, 't', depth, cls, kinds = ['int']); u = tree(c, 'u', depth_u or depth, dict, kinds = ['none', 'int'] if ignore else ['none', 'int', 'list'])
         st, su = snapshot(t), snapshot(u)
         kw = dict(ignore = list(ignore)) if ignore else {}
         r = P.tree_update(t, u, **kw)
@@ -138,20 +139,32 @@ def h_table(pattern, nrows):
 
 def obligations(tier):
     from pyg_base import Dict
-    q = tier == 'quick'; D = 2 if q else 3
+    q = tier == 'quick'
     obs = []
     shapes = [('a',), ('b',), ('a', 'b'), ('b', 'c')]
     for cls in (dict, Dict):
+        for i, ks in ((4, ('v.1',)), (5, ('a', 'v.1'))):
+            obs.append(Ob('roundtrip.%s.dotted-key.%s' % (cls.__name__, ''.join(ks)), h_roundtrip(2, cls), pins = {'t.keys': i}, budget_s = 300, desc = 'the round trip on trees with a key that holds the path separator (root keys %s)' % (ks,)))
+            for j, ku in ((4, ('v.1',)), (0, ('a',))):
+                obs.append(Ob('update.%s.dotted-key.%s-%s' % (cls.__name__, ''.join(ks), ''.join(ku)), h_update(2, cls, ()), pins = {'t.keys': i, 'u.keys': j}, budget_s = 300,
+                              desc = 'tree_update on trees with a key that holds the path separator (t root keys %s, u root keys %s)' % (ks, ku)))
+    for cls in (dict, Dict):
         for i, ks in enumerate(shapes):
-            obs.append(Ob('roundtrip.%s.%s' % (cls.__name__, ''.join(ks)), h_roundtrip(D, cls), pins = {'t.keys': i}, budget_s = 300 if q else 1500,
-                          desc = 'items_to_tree(tree_items(t)) == t, keys/values projections, tree_getitem for every path (root keys %s)' % (ks,)))
+            obs.append(Ob('roundtrip.%s.%s' % (cls.__name__, ''.join(ks)), h_roundtrip(2, cls), pins = {'t.keys': i}, budget_s = 300,
+                          desc = 'items_to_tree(tree_items(t)) == t, keys/values projections, tree_getitem for every path (depth 2, root keys %s)' % (ks,)))
+            if not q: obs.append(Ob('roundtrip3.%s.%s' % (cls.__name__, ''.join(ks)), h_roundtrip(3, cls, ['none', 'int']), pins = {'t.keys': i}, budget_s = 1500, fuel = 40000, max_paths = 200000,
+                          desc = 'the same on trees of depth 3 (leaves None / int; root keys %s)' % (ks,)))
     for cls in (dict, Dict):
         for ign in ((), (None,), (None, 0)):
             if q and cls is Dict and ign == (None, 0): continue
             for i, ks in enumerate(shapes):
                 for j, ku in enumerate(shapes):
-                    obs.append(Ob('update.%s.%s.%s-%s' % (cls.__name__, 'ign%d' % len(ign), ''.join(ks), ''.join(ku)), h_update(D, cls, ign), pins = {'t.keys': i, 'u.keys': j},
-                                  budget_s = 300 if q else 1500, desc = 'tree_update(t,u) == recursive merge, t and u untouched at any depth, identities (t a %s, ignore %s)' % (cls.__name__, list(ign))))
+                    obs.append(Ob('update.%s.%s.%s-%s' % (cls.__name__, 'ign%d' % len(ign), ''.join(ks), ''.join(ku)), h_update(2, cls, ign), pins = {'t.keys': i, 'u.keys': j},
+                                  budget_s = 300, desc = 'tree_update(t,u) == recursive merge, t and u untouched at any depth, identities (depth 2; t a %s, ignore %s)' % (cls.__name__, list(ign))))
+                    if not q and ign != (None, 0) and len(ks) + len(ku) < 4:
+                        for dt_, du_ in ((3, 2), (2, 3)):
+                            obs.append(Ob('update%d%d.%s.%s.%s-%s' % (dt_, du_, cls.__name__, 'ign%d' % len(ign), ''.join(ks), ''.join(ku)), h_update(dt_, cls, ign, du_), pins = {'t.keys': i, 'u.keys': j},
+                                          budget_s = 1500, max_paths = 200000, desc = 'the same with t of depth %d and u of depth %d (t a %s, ignore %s)' % (dt_, du_, cls.__name__, list(ign))))
     for p in PATTERNS:
         for n in (1, 2):
             obs.append(Ob('table.%s.%d' % (p.replace('/', '_').replace('%', ''), n), h_table(p, n), budget_s = 300, desc = 'table_to_tree / tree_to_table inverse for pattern %s, %d rows' % (p, n)))
